@@ -4,7 +4,8 @@ C05.F flip table = negation; C05.N API name <-> condition constant; C05.G the
 emitted branch is the flipped one, operands in order, label after the body;
 C05.L loop emitters: label and loop-register coherence; C05.U "at most" exit
 predicate; C05.A add on futures; C05.M measurement outcome placement;
-C05.R registers stay reserved until the commands using them are built; C05.P flush order.
+C05.R registers stay reserved until the commands using them are built; C05.P flush order;
+C05.H the host reads the controller's own array object (alias chain ret_arr -> shared memory).
 """
 from __future__ import annotations
 
@@ -32,6 +33,7 @@ EXPLANATION = (
     "against `f <= v`; add on futures loads, adds into and stores back the same temporary; the measurement outcome register is the "
     "one stored to the future; flush = pop -> assemble -> instantiate -> send -> reset."
     ' Every early return of the loop assemblers is evaluated over a grid of bodies and bounds: the loop may be dropped only when it cannot run. C05.R: a register is not used in an emitted command after its release. C05.Z: no truthiness test on an int-typed value.'
+    " C05.H: the host's shared memory holds the controller's own array object: ret_arr -> _update_shared_memory -> SharedMemory.init_new_array -> Arrays._set_array and both _get_array accessors hand the list on as a bare name / subscript (no copy). C05.K: memoisation keys cover the arguments."
 )
 LEVEL_TEXT = (
     "Static analysis, partial: operand, register, label and branch-sense coherence at every emit site of the control-flow "
@@ -602,6 +604,83 @@ def check_flush(ctx):
               f"array declarations / program / returns are emitted in the order {order}", b.loc(aa))
 
 
+def check_host_view(ctx):
+    """C05.H — "after each flush every Array handle read on the host equals the controller's value".  The builder returns an
+    array only in the flush that declares it, so later flushes are visible to the host only because the shared memory holds the
+    controller's own list object.  Every link of that chain must hand the object on unchanged (no copy, slice or rebuild):
+    ret_arr -> _update_shared_memory -> SharedMemory.init_new_array -> Arrays._set_array, and the two _get_array accessors
+    must return the stored object itself."""
+    repo = ctx.repo
+    ex = repo.get_class("netqasm.backend.executor", "Executor")
+    sm = repo.get_class("netqasm.sdk.shared_memory", "SharedMemory")
+    ar = repo.get_class("netqasm.sdk.shared_memory", "Arrays")
+
+    def fn_of(cls, name):
+        f = cls.methods.get(name)
+        if f is None:
+            raise AnalysisError(f"{cls.name}.{name} not found")
+        ctx.fn(f"{cls.name}.{name}")
+        return f
+
+    def passed(fn, callee, pos, kw):
+        """expressions handed to parameter (pos, kw) of every call of `callee` in fn, single-definition locals expanded"""
+        defs = A.single_defs(fn)
+        out = []
+        for c in A.calls_in(fn):
+            if A.call_name(c) == callee:
+                a = A.get_arg(c, pos, kw)
+                if a is not None and not (isinstance(a, ast.Constant) and a.value is None):
+                    out.append((c, A.expand(a, defs)))
+        return out
+
+    n = 0
+    # 1. ret_arr hands over what _get_array returned
+    f = fn_of(ex, "_instr_ret_arr")
+    for c, e in passed(f, "_update_shared_memory", 2, "value"):
+        n += 1
+        ok = isinstance(e, ast.Call) and A.is_self_attr(e.func, "_get_array")
+        ctx.check("C05.H", "_instr_ret_arr:hands-the-controller's-own-array-to-shared-memory", ok,
+                  f"ret_arr gives shared memory `{src(e)}`, not the list object the controller keeps writing to: the builder returns an array only in the flush "
+                  "that declares it, so stores of later flushes never reach the host's Array / Future handles", ex.loc(c), sample={"value": src(e)})
+    # 2. accessors return the stored object
+    f = fn_of(ex, "_get_array")
+    for r in A.returns(f):
+        n += 1
+        e = A.expand(r.value, A.single_defs(f))
+        ok = isinstance(e, ast.Call) and isinstance(e.func, ast.Attribute) and e.func.attr == "_get_array" and isinstance(e.func.value, ast.Subscript) and A.is_self_attr(e.func.value.value, "_app_arrays")
+        ctx.check("C05.H", "Executor._get_array:returns-the-stored-list", ok, f"Executor._get_array returns `{src(e)}`, not the application's stored array object", ex.loc(r))
+    f = fn_of(ar, "_get_array")
+    for r in A.returns(f):
+        n += 1
+        e = A.expand(r.value, A.single_defs(f))
+        ok = isinstance(e, ast.Subscript) and A.is_self_attr(e.value, "_arrays") and not isinstance(e.slice, ast.Slice)
+        ctx.check("C05.H", "Arrays._get_array:returns-the-stored-list", ok, f"Arrays._get_array returns `{src(e)}`, not the stored list itself", ar.loc(r))
+    # 3. the hand-over chain keeps the object
+    f = fn_of(ex, "_update_shared_memory")
+    ps = A.param_names(f)
+    for c, e in passed(f, "init_new_array", 2, "new_array"):
+        n += 1
+        ok = isinstance(e, ast.Name) and e.id in ps and ps.index(e.id) == 3
+        ctx.check("C05.H", "_update_shared_memory:array-passed-on-unchanged", ok, f"_update_shared_memory passes `{src(e)}` as the new array instead of the value it was given", ex.loc(c))
+    f = fn_of(sm, "init_new_array")
+    ps = A.param_names(f)
+    for c, e in passed(f, "_set_array", 1, "array"):
+        n += 1
+        ok = isinstance(e, ast.Name) and e.id in ps and ps.index(e.id) == 3
+        ctx.check("C05.H", "SharedMemory.init_new_array:array-passed-on-unchanged", ok, f"SharedMemory.init_new_array stores `{src(e)}` instead of the list it was given", sm.loc(c))
+    f = fn_of(ar, "_set_array")
+    ps = A.param_names(f)
+    for st in A.body_nodes(f):
+        if isinstance(st, ast.Assign) and isinstance(st.targets[0], ast.Subscript) and A.is_self_attr(st.targets[0].value, "_arrays"):
+            n += 1
+            e = A.expand(st.value, A.single_defs(f))
+            ok = isinstance(e, ast.Name) and e.id in ps and ps.index(e.id) == 2
+            ctx.check("C05.H", "Arrays._set_array:stores-the-given-list", ok, f"Arrays._set_array stores `{src(e)}` instead of the list it was given", ar.loc(st))
+    ctx.anchor("C05.H", "links of the controller-array -> shared-memory alias chain", n, 6)
+    # ret_reg / ret_arr return the register / array the instruction names (dataflow signature shared with C04.S)
+    c04.check_signatures(ctx, c04.handler_table(ctx), rule="C05.H", only={"ret_arr", "ret_reg"})
+
+
 def check_register_liveness(ctx):
     """loop registers and condition temporaries stay reserved until the commands that use them have been built (shared with C14.A4)"""
     from . import c14
@@ -618,16 +697,24 @@ def run(ctx):
     check_future_ops(ctx)
     check_register_liveness(ctx)
     check_flush(ctx)
+    check_host_view(ctx)
     n = len(E.icmds_in(ctx.repo.module(B).tree))
     ctx.anchor("C05.G", "ICmd constructions in sdk/builder.py", n, 55)
     # 0 is an ordinary id / value / address: nothing int-valued may be tested by truthiness (nqsa/truth.py)
     from .. import truth
     truth.check(ctx, "C05.Z", ['netqasm.sdk.builder', 'netqasm.sdk.futures', 'netqasm.sdk.connection'])
+    # a value remembered for later calls is keyed by every argument it depends on (nqsa/memo.py)
+    from .. import memo
+    memo.check(ctx, "C05.K", ['netqasm.sdk.builder', 'netqasm.sdk.futures', 'netqasm.sdk.connection'])
 
 
 BF = "netqasm/sdk/builder.py"
 FU = "netqasm/sdk/futures.py"
 SEEDS = [
+    dict(id="c05-ret-arr-copy", file="netqasm/backend/executor.py", expect="C05.H", construct="_instr_ret_arr", old="        array = self._get_array(app_id=app_id, address=address)\n\n        # Not all values need to be defined.", new="        array = list(self._get_array(app_id=app_id, address=address))\n\n        # Not all values need to be defined."),
+    dict(id="c05-set-array-copies", file="netqasm/sdk/shared_memory.py", expect="C05.H", construct="Arrays._set_array", old="        self._arrays[address] = array\n", new="        self._arrays[address] = list(array)\n"),
+    dict(id="c05-shared-init-copies", file="netqasm/sdk/shared_memory.py", expect="C05.H", construct="SharedMemory.init_new_array", old="            self._arrays._set_array(address, new_array)", new="            self._arrays._set_array(address, new_array[:])"),
+    dict(id="c05-get-array-copy", file="netqasm/sdk/shared_memory.py", expect="C05.H", construct="Arrays._get_array", old="        return self._arrays[address]\n\n    def _set_array", new="        return list(self._arrays[address])\n\n    def _set_array"),
     dict(id="c05-empty-range-ignores-step", file="netqasm/sdk/builder.py", expect="C05.L", construct="loop-dropped-only-when-it-cannot-run",
          old="        loop_register: operand.Register,\n    ) -> None:\n        if len(body_commands) == 0:\n            self.subrt_add_pending_commands(commands=pre_commands)\n            return\n\n        entry_label = self._label_mgr.new_label(start_with=\"LOOP\")",
          new="        loop_register: operand.Register,\n    ) -> None:\n        empty_range = isinstance(start, int) and isinstance(stop, int) and stop <= start\n        if len(body_commands) == 0 or empty_range:\n            self.subrt_add_pending_commands(commands=pre_commands)\n            return\n\n        entry_label = self._label_mgr.new_label(start_with=\"LOOP\")"),
